@@ -100,7 +100,7 @@ def enum_trees(
     elif size >= 2:
         for u in unops:
             for c in enum_trees(size - 1, binops, unops, variables, memo):
-                if u == "fact" and c[0] != "const":
+                if u in ("fact", "factL") and c[0] != "const":
                     continue
                 out.append((u, c))
         for ls in range(1, size - 1):
@@ -156,7 +156,7 @@ def slot_roles(sk: Any, role: str = "coef", out: Optional[Dict[int, str]] = None
     elif k == "pow":
         slot_roles(sk[1], "coef", out)
         slot_roles(sk[2], "exp" if sk[2][0] == "const" else "coef", out)
-    elif k == "fact":
+    elif k in ("fact", "factL"):
         slot_roles(sk[1], "fact" if sk[1][0] == "const" else "coef", out)
     else:
         for c in sk[1:]:
@@ -252,6 +252,8 @@ def build(sk: Any, prov: Any, roles: Optional[Dict[int, str]] = None) -> Any:
         return E.VariableExpression(sk[1])
     if k in UN:
         return UN[k](build(sk[1], prov, roles))
+    if k.endswith("L") and k[:-1] in UN:  # one-operand node with the operand on the left
+        return UN[k[:-1]](build(sk[1], prov, roles), child_on_left=True)
     return BIN[k](build(sk[1], prov, roles), build(sk[2], prov, roles))
 
 
